@@ -67,12 +67,22 @@ def field_names(cls):
     return fn
 
 
-def struct_of(obj):
+def struct_of(obj, memo=None, fresh=0):
+    """memo: optional {id(object): structure} for callers that keep the objects alive (nested elements shared between
+    tokenizers); the outermost `fresh` dataclass levels are never memoised (unique, short-lived ids)"""
     if isinstance(obj, tuple):
-        return ("T", tuple(struct_of(x) for x in obj))
+        return ("T", tuple(struct_of(x, memo, fresh) for x in obj))
     cls = type(obj)
     if hasattr(cls, "__dataclass_fields__"):
-        return ("C", cls.__qualname__, tuple((n, struct_of(getattr(obj, n))) for n in field_names(cls)))
+        use = memo is not None and fresh <= 0
+        if use:
+            got = memo.get(id(obj))
+            if got is not None and got[0] is obj:
+                return got[1]
+        out = ("C", cls.__qualname__, tuple((n, struct_of(getattr(obj, n), memo, fresh - 1)) for n in field_names(cls)))
+        if use:
+            memo[id(obj)] = (obj, out)  # the entry keeps obj alive: its id cannot be reused
+        return out
     return obj
 
 
@@ -109,8 +119,37 @@ def dec(x):
     return to_struct(x)
 
 
-def digest(struct):
-    return hashlib.blake2b(repr(struct).encode(), digest_size=16).digest()
+def _piece(h, b):
+    h.update(len(b).to_bytes(4, "big"))
+    h.update(b)
+
+
+def digest(struct, memo=None, fresh=0):
+    """16-byte digest of a structure, computed bottom-up.  memo: optional {id(node): (node, digest)} - the node is kept
+    alive by the entry, so an id can never be reused for another node; the outermost `fresh` levels are not memoised
+    (they are unique per tokenizer and would only fill the memory)"""
+    if not isinstance(struct, tuple):
+        return repr(struct).encode()
+    use = memo is not None and fresh <= 0
+    if use:
+        e = memo.get(id(struct))
+        if e is not None and e[0] is struct:
+            return e[1]
+    h = hashlib.blake2b(digest_size=16)
+    if struct[0] == "C":
+        _piece(h, b"C")
+        _piece(h, struct[1].encode())
+        for n, v in struct[2]:
+            _piece(h, n.encode())
+            _piece(h, digest(v, memo, fresh - 1))
+    else:
+        _piece(h, b"T")
+        for v in struct[1]:
+            _piece(h, digest(v, memo, fresh - 1))
+    d = h.digest()
+    if use:
+        memo[id(struct)] = (struct, d)
+    return d
 
 
 def short(struct):
@@ -183,7 +222,20 @@ def is_dc(tp):
     return isinstance(tp, type) and hasattr(tp, "__dataclass_fields__")
 
 
+_FTYPES = {}
+_ABSTRACT = {}
+
+
+def is_abstract(cls):
+    a = _ABSTRACT.get(cls)
+    if a is None:
+        a = _ABSTRACT[cls] = inspect.isabstract(cls)
+    return a
+
+
 def field_types(cls):
+    if cls in _FTYPES:
+        return _FTYPES[cls]
     hints = None
     out = []
     for f in dataclasses.fields(cls):
@@ -193,6 +245,7 @@ def field_types(cls):
                 hints = typing.get_type_hints(cls)
             t = hints[f.name]
         out.append((f.name, t))
+    _FTYPES[cls] = out
     return out
 
 
@@ -225,7 +278,7 @@ def spec_enum(tp, valid):
             raise TypeError(f"unbounded tuple type {tp}")
         out = [("T", combo) for combo in itertools.product(*(spec_enum(a, valid) for a in args))]
     elif is_dc(tp):
-        if inspect.isabstract(tp):
+        if is_abstract(tp):
             out = [s for sub in tp.__subclasses__() for s in spec_enum(sub, valid)]
         else:
             ft = field_types(tp)
@@ -258,7 +311,7 @@ def spec_count(tp, valid=True):
         for a in typing.get_args(tp):
             n *= spec_count(a, valid)
     elif is_dc(tp):
-        if inspect.isabstract(tp):
+        if is_abstract(tp):
             n = sum(spec_count(sub, valid) for sub in tp.__subclasses__())
         elif valid and has_local_rule(tp):
             n = len(spec_enum(tp, valid))
@@ -275,8 +328,8 @@ def spec_count(tp, valid=True):
 def spec_at(tp, idx, valid=True):
     """the idx-th structure of type tp in a fixed order (mixed radix over fields, branches concatenated)"""
     org = typing.get_origin(tp)
-    if tp is bool or org is typing.Literal or (valid and is_step_perm_type(tp)):
-        return spec_enum(tp, valid)[idx]
+    if tp is bool or org is typing.Literal or (valid and is_step_perm_type(tp)) or spec_count(tp, valid) <= BIG:
+        return spec_enum(tp, valid)[idx]  # small types: the materialised list (any fixed order is a bijection)
     if org in (types.UnionType, typing.Union):
         for a in typing.get_args(tp):
             c = spec_count(a, valid)
@@ -291,7 +344,7 @@ def spec_at(tp, idx, valid=True):
             items.append(spec_at(a, idx % c, valid))
             idx //= c
         return ("T", tuple(items))
-    if inspect.isabstract(tp):
+    if is_abstract(tp):
         for sub in tp.__subclasses__():
             c = spec_count(sub, valid)
             if idx < c:
@@ -367,7 +420,7 @@ def check_family(res, tp, label):
         if n > 1:
             res.fail(key, f"{short(s)} is enumerated {n} times", {**inp, "item": enc(s)}, n)
         if s not in want_set:
-            if not spec_valid(s):
+            if not spec_valid(s) or (s[0] == "T" and not perm_ok(s)):
                 res.fail("C15:invalid-enumerated", f"{short(s)} is enumerated for {label} but breaks a documented validity rule", {**inp, "item": enc(s)}, None)
             else:
                 res.fail(key, f"{short(s)} is enumerated for {label} but is not a configuration of the type space", {**inp, "item": enc(s)}, None)
@@ -613,10 +666,14 @@ def _work_slice(rec, item):
     sd = np.zeros((n, 2), dtype=np.uint64)
     nd = np.zeros((n, 2), dtype=np.uint64)
     hs = np.zeros(n, dtype=np.int64)
+    memo = _ALL.setdefault("memo", {})
+    dmemo = _ALL.setdefault("dmemo", {})
     for k in range(n):
         t = toks[lo + k]
-        s = struct_of(t)
-        sd[k] = np.frombuffer(digest(s), dtype=np.uint64)
+        # nested elements are shared between the enumerated tokenizers and stay alive in the list: convert each once;
+        # the tokenizer and its prompt sequencer are unique objects, so they are converted fresh
+        s = struct_of(t, memo, fresh=2)
+        sd[k] = np.frombuffer(digest(s, dmemo, fresh=2), dtype=np.uint64)
         name = t.name
         nd[k] = np.frombuffer(hashlib.blake2b(name.encode(), digest_size=16).digest(), dtype=np.uint64)
         hs[k] = hash(t)
@@ -644,8 +701,9 @@ def _work_spec_slice(rec, item):
     lo, hi = item
     tp = MTM()
     out = np.zeros((hi - lo, 2), dtype=np.uint64)
+    dmemo = _ALL.setdefault("dmemo_spec", {})
     for k in range(hi - lo):
-        out[k] = np.frombuffer(digest(spec_at(tp, lo + k, True)), dtype=np.uint64)
+        out[k] = np.frombuffer(digest(spec_at(tp, lo + k, True), dmemo, fresh=2), dtype=np.uint64)
     rec.errors.append(("__arrays__", lo, out))
 
 
